@@ -591,6 +591,49 @@ def r5_fetch_skeleton(ctx, rule='C01.R5'):
                   'on the bucket path the lower bound is set to the front time of the very bucket that is popped, before the pop',
                   f.where_path(path), detail)
     ctx.floor('bucket-pop paths of fetch_next', n, 1)
+    # what R5 compares and records is the time of the node the pop removes: front_time reads the first node of the list (or MAX for an
+    # empty list), not a separately maintained copy of it
+    ft = ctx.P.fns.get(L + '::front_time')
+    if ft is not None:
+        ctx.touch(ft)
+        alts = []
+        for _, t_ in ret_trees(ft):
+            t_ = peel(t_)
+            alts += [peel(y) for y in (t_[1] if t_[0] == 'phi' else [t_])]
+        def first_node_time(x):
+            x = ptr_norm(x)
+            return x[0] == 'field' and x[2] == 'time' and any(y[0] == 'field' and y[2] in ('next', 'head') for y in walk(x[1]))
+        def is_max(x):
+            return x[0] in ('constdef', 'const') and 'MAX' in str(x[1])
+        la_ = ctx.P.adts.get(L) or {}
+        time_fields = {fd['n'] for v in la_.get('variants', []) for fd in v['fields'] if fd['ty'] in ('std::time::Duration', 'core::time::Duration')}
+        cached = [x for x in alts if x[0] == 'field' and x[2] in time_fields and peel(x[1])[0] == 'arg']
+        okf = bool(alts) and not cached
+        ctx.check(okf, 'front-time-reads-first-node', "DualLinkedList::front_time reads the first node's time from the list itself", ft.where(), [show(x)[:80] for x in alts][:3])
+    # the scan window belongs to fetch_next: nothing else moves it (an advance while events may still be added into the rest of the
+    # current window - e.g. from cancel, when it empties the head bucket - puts a later add behind the scan)
+    qa_ = ctx.P.adts.get(Q) or {}
+    names_ = {fd['n'] for v in qa_.get('variants', []) for fd in v['fields']}
+    wf_ = set()
+    for path2, o2, d2 in fn_paths(ctx, f):
+        effs2 = path_effects(f, path2)
+        pops2 = [e for e in effs2 if _is_call(e, L + '::pop_min')]
+        for e in pops2:
+            wf_ |= {x[2] for x in walk(peel(e[2][0])) if x[0] == 'field' and len(x) > 3 and str(x[3]).split('<')[0].endswith('CQueue') and not str(x[2]).isdigit()}
+    wf_ -= {fd['n'] for v in qa_.get('variants', []) for fd in v['fields'] if 'DualLinkedList' in fd['ty']} | _NON_WINDOW(ctx) | _param_fields(ctx)
+    if not wf_:
+        ctx.note('scan position is not a direct field of CQueue (kept in a private record): writer rule not applied')
+    else:
+        scope_f = {g.key for g in ctx.P.scope_of(f.key)} | {f.key}
+        for g in ctx.P.fn_list:
+            if not g.key.startswith(Q + '::') or g.kind == 'promoted' or g.key in scope_f or (g.root or g.key) in scope_f or g.key.startswith((Q + '::new', Q + '::default')):
+                continue
+            for b in sorted(g.reachable()):
+                for i, st in enumerate(g.stmts(b)):
+                    if st['k'] == 'assign' and st['p']['pr']:
+                        c = classify_write(g, b, i, st)
+                        if c and c[1] in wf_ and (c[2] or '').split('<')[0].endswith('CQueue'):
+                            ctx.violation('window-writer:%s' % g.key.split('::')[-1], 'the scan position of the calendar is written outside fetch_next', g.where(b), c[1])
 
 
 def r6_handle_linearity(ctx):
